@@ -230,9 +230,9 @@ fn replay_history(case: &Value) -> Result<(), String> {
 // ---------------------------------------------------------------- loom
 fn loom_models(quick: bool) -> Vec<(&'static str, Option<usize>)> {
     if quick {
-        vec![("L1", None), ("L3", None), ("L4", None), ("L6", None), ("L2", Some(3)), ("L7", Some(2)), ("L5", Some(2))]
+        vec![("L1", None), ("L3", None), ("L4", None), ("L6", None), ("L2", Some(3)), ("L7", Some(2)), ("L5", Some(2)), ("L8", Some(3)), ("L9", Some(2)), ("L10", Some(2)), ("L11", Some(2))]
     } else {
-        vec![("L1", None), ("L3", None), ("L4", None), ("L6", None), ("L2", Some(4)), ("L7", Some(3)), ("L5", Some(3))]
+        vec![("L1", None), ("L3", None), ("L4", None), ("L6", None), ("L2", Some(4)), ("L7", Some(3)), ("L5", Some(3)), ("L8", Some(4)), ("L9", Some(4)), ("L10", Some(3)), ("L11", Some(3))]
     }
 }
 
@@ -311,9 +311,9 @@ pub fn run(ctx: &Ctx) -> i32 {
     st.sample(json!({"kind":"history","seed":"capacity-1 plans","requests":["new1","new2","oldest","most-recently-evicted"],"oracle":"encoder == encoder from a fresh plan; cache snapshot == FIFO model; |plans| <= 64; order duplicate-free and = keys; plan count == key"}));
     finish(ctx, &st, Finish {
         level: "model_checking",
-        rule: "schedules: loom explores all interleavings (DPOR; unbounded for L1, L3, L4, L6; preemption-bounded for L2, L5, L7 - see notes) of real threads calling the real SourceBlockEncoder::new against the real process-wide cache compiled with loom's Mutex/Arc/lazy_static (scheduling points at every lock, Arc clone/drop and the static's initialisation); in every execution every returned encoder must equal the encoder built from a fresh plan, and after each request and at the end |plans| <= capacity, insertion order is a duplicate-free listing of exactly the stored keys, each plan was generated for its key. histories: breadth-first exploration of request sequences (alphabet new1, new2, oldest, newest, middle, most-recently-evicted; 5 seeds around the capacity) on the real global cache against a FIFO model, de-duplicated by the cache snapshot (= the whole state), plus all sequences of a fixed length on one continuously living cache. distinct_nontrivial = distinct cache states + distinct final orders.".into(),
+        rule: "schedules: loom explores all interleavings (DPOR; unbounded for L1, L3, L4, L6; preemption-bounded for L2, L5, L7-L11 - see notes; L8, L9, L11 use block sizes on the far side of the 250-symbol back-end threshold, L10 has four threads) of real threads calling the real SourceBlockEncoder::new against the real process-wide cache compiled with loom's Mutex/Arc/lazy_static (scheduling points at every lock, Arc clone/drop and the static's initialisation); in every execution every returned encoder must equal the encoder built from a fresh plan, and after each request and at the end |plans| <= capacity, insertion order is a duplicate-free listing of exactly the stored keys, each plan was generated for its key. histories: breadth-first exploration of request sequences (alphabet new1, new2, oldest, newest, middle, most-recently-evicted; 5 seeds around the capacity) on the real global cache against a FIFO model, de-duplicated by the cache snapshot (= the whole state), plus all sequences of a fixed length on one continuously living cache. distinct_nontrivial = distinct cache states + distinct final orders.".into(),
         exhaustive: false,
-        assumptions: vec!["at most 3 threads; std::sync::Mutex itself and weak-memory effects inside it are trusted (loom models the lock as a scheduling point)".into(), "loom failures abort the child: the model name is the replay (deterministic re-exploration)".into()],
+        assumptions: vec!["at most 4 threads; std::sync::Mutex itself and weak-memory effects inside it are trusted (loom models the lock as a scheduling point)".into(), "loom failures abort the child: the model name is the replay (deterministic re-exploration)".into()],
         extra: Map::new(),
         must_be_nonzero: vec!["loom_models", "loom_executions", "loom_executions_with_eviction", "history_states", "history_evictions", "history_cache_hits", "live_history_steps"],
     }, replay)
